@@ -211,7 +211,8 @@ Proof.
   intros Hs Hd Hp. destruct (sym_parts k Hs) as [_ [NDg _]].
   unfold to_props in Hp. destruct (to_props_entries_spec a (to_table k) [] p NDg Hp) as [_ H2].
   unfold node_id_of, pget. rewrite H2; [reflexivity|].
-  unfold dict_tables_ok in Hd. apply andb_true_iff in Hd as [Hd _]. rewrite forallb_forall in Hd.
+  unfold dict_tables_ok in Hd. apply andb_true_iff in Hd as [Hd _]. apply andb_true_iff in Hd as [Hd _].
+  rewrite forallb_forall in Hd.
   intro Hin. apply in_map_iff in Hin as [te [E Hte]]. specialize (Hd te Hte).
   apply andb_true_iff in Hd as [_ Hd]. unfold gp in E. rewrite E in Hd. rewrite String.eqb_refl in Hd. discriminate.
 Qed.
